@@ -1,7 +1,7 @@
 (* C14 - TopoART: two-winner learning, edge counts and pruning keep all
    indices aligned.  Statements only; model in theories/Topo.v. *)
 From Coq Require Import List Bool Arith ZArith.
-From ART Require Import Num Vec Search Kernel BaseArt DualVig Topo Topo_proofs Fuzzy.
+From ART Require Import Num Vec Search Kernel BaseArt DualVig Topo Topo_proofs Fuzzy Topo_labels.
 Import ListNotations.
 
 (* best and second-best winners are different categories (so the edge count never lands on the diagonal) *)
@@ -36,6 +36,22 @@ Theorem C14_prune :
                (exists p c, nth_error (perm s) k = Some p /\ nth_error (wsc (TB s)) k = Some c /\ (p = true \/ phi <= c))).
 Proof. exact @prune_aligned. Qed.
 
+(* ... and all sample labels are re-indexed consistently: a sample whose category survives keeps that very category
+   (same weight, same counter) under its new index; an orphaned sample is re-predicted with the pruned model, or
+   marked -1 when nothing survives *)
+Theorem C14_prune_labels :
+  forall (N : Num) (K : Kernel N) phi (s : topo (N:=N)) X s',
+    prune K phi s X = Some s' ->
+    forall j x l, nth_error X j = Some x -> nth_error (tlab s) j = Some l ->
+      (exists i, (0 <= l)%Z /\ new_index (prune_mask phi s) (Z.to_nat l) = Some i /\
+                 nth_error (tlab s') j = Some (Z.of_nat i) /\
+                 nth_error (W (TB s')) i = nth_error (W (TB s)) (Z.to_nat l) /\
+                 nth_error (wsc (TB s')) i = nth_error (wsc (TB s)) (Z.to_nat l))
+      \/ (((l < 0)%Z \/ new_index (prune_mask phi s) (Z.to_nat l) = None) /\ W (TB s') = [] /\ nth_error (tlab s') j = Some (-1)%Z)
+      \/ (((l < 0)%Z \/ new_index (prune_mask phi s) (Z.to_nat l) = None) /\ W (TB s') <> [] /\
+          exists c, step_pred K (TB s') x = Some c /\ nth_error (tlab s') j = Some (Z.of_nat c)).
+Proof. exact @prune_labels. Qed.
+
 (* after any fit, with any number of pruning rounds (also ones that remove
    everything): adjacency is square with one row per category and a zero diagonal *)
 Theorem C14_fit_aligned :
@@ -47,6 +63,7 @@ Theorem C14_fit_aligned :
 Proof. exact @topo_fit_aligned. Qed.
 Print Assumptions C14_fit_aligned.
 Print Assumptions C14_prune.
+Print Assumptions C14_prune_labels.
 
 (* non-vacuity: tau = 2, phi = 2 on 4 samples: two pruning rounds, the second removes everything *)
 From Coq Require Import QArith.
